@@ -11,6 +11,8 @@ Layer S, established session.  Case kinds:
 """
 from __future__ import annotations
 
+import asyncio
+
 import time
 
 from hypothesis import strategies as st
@@ -406,8 +408,29 @@ def run_early(case: dict) -> CaseResult:
     async def on_stop(expected):
         stops.append(expected)
 
+    presub = list(case.get("presub") or [])
+    late = [r for r in (case.get("late") or [])]
+    sub_got: list = []
+    ids = {"ping": 7, "gettime": 36, "discreq": 5}
+
     async def main():
-        await cli.connect(on_stop=on_stop, login=bool(case.get("login", True)))
+        if presub:
+            # two-phase connect; a subscriber registered on the connection object between the phases is registered
+            # 'at that moment' for everything that arrives from the hello answer on
+            from vf import wire
+            by_id = wire.ids()[0]
+            await cli.start_connection(on_stop=on_stop)
+            conn = env.conns[-1]
+            conn.add_message_callback(lambda m: sub_got.append(type(m).__name__), tuple(by_id[ids[r]] for r in presub))
+            await cli.finish_connection(login=bool(case.get("login", True)))
+        else:
+            await cli.connect(on_stop=on_stop, login=bool(case.get("login", True)))
+        for r in late:
+            tr_ = env.dev.session.transport
+            if tr_.closing:
+                break
+            tr_.feed(env.dev.session.encode(mk[r]()))
+            await asyncio.sleep(1 / 16)
         env.log("connected")
         await cli.disconnect(force=True)
 
@@ -418,7 +441,16 @@ def run_early(case: dict) -> CaseResult:
     except IterationCap as e:
         env.close()
         raise HarnessError(f"C12 early: {e}") from e
-    expected = [{"ping": 8, "gettime": 37, "discreq": 6}[r] for r in reqs]
+    if "discreq" in reqs:
+        late = []
+    elif "discreq" in late:
+        late = late[: late.index("discreq") + 1]
+    if presub:
+        want_sub = [mk[r].__name__ for r in reqs + late if r in presub]
+        if sub_got != want_sub:
+            res.violations.append(Violation(ID, "c12:subscriber-registered-before-the-handshake:" + ("missed" if len(sub_got) < len(want_sub) else "wrong-deliveries"),
+                                            f"subscribed to {presub} between start_connection() and finish_connection(); device sent {reqs} with the hello answer and {late} later; subscriber saw {sub_got}, expected {want_sub}"))
+    expected = [{"ping": 8, "gettime": 37, "discreq": 6}[r] for r in reqs + late]
     final_seq = next((e["seq"] for e in env.trace if e["kind"] == "connected"), 10**9)
     wrote = [e["type"] for e in env.trace if e["kind"] == "rx" and e["seq"] < final_seq and e["type"] not in (1, 3)]
     if wrote != expected:
@@ -433,9 +465,9 @@ def run_early(case: dict) -> CaseResult:
         cseq = [e["seq"] for e in env.trace if e["kind"] == "transport_close"]
         if wseq and cseq and wseq[0] > cseq[0]:
             res.violations.append(Violation(ID, "c12:disconnect-request:response-not-before-close", "early"))
-    res.classes = ["peer_request", "early"] + (["noise"] if noise else [])
+    res.classes = ["peer_request", "early"] + (["noise"] if noise else []) + (["subscriber_before_handshake"] if presub else [])
     res.nontrivial = True
-    res.info = {"trailer": reqs, "wrote": wrote}
+    res.info = {"trailer": reqs, "wrote": wrote, "subscriber": sub_got}
     env.close()
     return res
 
@@ -532,7 +564,9 @@ def _silent(draw, tier):
 def _early(draw, tier):
     return {"kind": "early", "noise": draw(st.booleans()), "login": draw(st.booleans()),
             "trailer": draw(st.lists(st.sampled_from(["ping", "gettime", "ping", "discreq"]), min_size=1, max_size=4)),
-            "cuts": sorted(set(draw(st.lists(st.integers(1, 60), max_size=3))))}
+            "cuts": sorted(set(draw(st.lists(st.integers(1, 60), max_size=3)))),
+            **({"presub": draw(st.lists(st.sampled_from(["ping", "gettime", "discreq"]), min_size=1, max_size=3, unique=True)),
+                "late": draw(st.lists(st.sampled_from(["ping", "gettime", "ping", "discreq"]), max_size=3))} if draw(st.booleans()) else {})}
 
 
 def strategy(tier):
@@ -602,5 +636,7 @@ def enumerated(tier):
         for noise in (False, True):
             for login in (False, True):
                 yield {"kind": "early", "noise": noise, "login": login, "trailer": [what], "cuts": []}
+                yield {"kind": "early", "noise": noise, "login": login, "trailer": [what], "cuts": [], "presub": ["ping", "gettime", "discreq"], "late": ["ping", "gettime", "discreq"]}
+                yield {"kind": "early", "noise": noise, "login": login, "trailer": [], "cuts": [], "presub": [what], "late": ["gettime", "ping", "ping", "discreq"]}
                 yield {"kind": "early", "noise": noise, "login": login, "trailer": ["ping", "gettime", what], "cuts": [3, 9]}
             yield {"kind": "history", "noise": noise, "ops": [{"op": "sub", "id": "c0", "types": [26], "script": []}, {"op": "peer", "what": what}, {"op": "msg", "type": 26, "payload": {"key": 3}}, {"op": "peer", "what": "ping"}]}
